@@ -97,7 +97,7 @@ def check_json_item(W, qi, item, label, key, case, where, nclosest=10):
 		raise Violation(key + ':closest_genomes', f'{where}: closest_genomes {[g["genome"]["key"] for g in got]} != expected genomes {exp_list}', case)
 	for g, j in zip(got, exp_list):
 		f = W.genome_fields[j]
-		if g['genome'].get('description') != f['description'] or RJ.float_to_bits(g['distance']) != W.dbits[qi][j]:
+		if g['genome'].get('description') != f['description'] or float(g['distance']) != W.dist(qi, j):
 			raise Violation(key + ':closest_genomes', f'{where}: entry for genome {j}: {g["genome"].get("description")!r} at {g["distance"]!r}, expected '
 			                f'{f["description"]!r} at {W.dist(qi, j)!r}', case)
 		mt = W.forest.match(W.w['genomes'][j]['taxon'], W.dist(qi, j))
@@ -115,13 +115,13 @@ def check_result_item(W, qi, item, key, case, where):
 
 	def tk(t):
 		return None if t is None else t.key
-	if cm.genome.key != W.genome_fields[m['closest']]['key'] or RJ.float_to_bits(cm.distance) != m['dbits']:
+	if cm.genome.key != W.genome_fields[m['closest']]['key'] or float(cm.distance) != m['dmin']:
 		raise Violation(key + ':closest', f'{where}: closest match {cm.genome.key} at {float(cm.distance)!r}, expected genome {m["closest"]} at {m["dmin"]!r}', case)
 	if tk(cr.predicted_taxon) != taxon_key(m['predicted']):
 		raise Violation(key + ':predicted', f'{where}: predicted taxon {tk(cr.predicted_taxon)}, expected {taxon_key(m["predicted"])}', case)
 	if (cr.primary_match is None) != (m['predicted'] is None):
 		raise Violation(key + ':primary', f'{where}: primary match present={cr.primary_match is not None} but prediction={m["predicted"]}', case)
-	if cr.primary_match is not None and (cr.primary_match.genome is not cm.genome or RJ.float_to_bits(cr.primary_match.distance) != m['dbits']):
+	if cr.primary_match is not None and (cr.primary_match.genome is not cm.genome or float(cr.primary_match.distance) != m['dmin']):
 		raise Violation(key + ':primary', f'{where}: primary match is not the closest match', case)
 	if tk(cr.next_taxon) != taxon_key(m['next']):
 		raise Violation(key + ':next', f'{where}: next taxon {tk(cr.next_taxon)}, expected {taxon_key(m["next"])}', case)
